@@ -149,8 +149,11 @@ def check_C16(chk):
         absent = {"zz", "nosuch"}
         for n in f["names"]:
             absent |= {n + "x", "x" + n, n[:-1], n[1:], n.upper()}
-        absent = [a for a in sorted(absent) if a and a not in f["names"] and a.replace("_", "a").isalnum()]
-        for pn in (absent if chk.tier == "thorough" else rng.sample(absent, min(3, len(absent)))):
+        # pieces of present names delimited by '_' (len of buf_len), and the words of the wrapper itself
+        pieces = {pc for n in f["names"] for pc in n.split("_")} | ({"box", "double", "box_double"} if any(f["dbl"]) else set())
+        pieces = [a for a in sorted(pieces) if a and a not in f["names"] and a.isalnum() or a == "box_double" and a not in f["names"]]
+        absent = [a for a in sorted(absent) if a and a not in f["names"] and a.replace("_", "a").isalnum() and a not in pieces]
+        for pn in (absent + pieces if chk.tier == "thorough" else rng.sample(absent, min(3, len(absent))) + pieces[:3]):
             for dbl in (0, 1):
                 impl_lines.append("N %d %s %d %s" % (f["id"], pn, dbl, " ".join(map(str, vals))))
                 model_lines.append("(B %s %s (%s))" % (sx(text), sx(pn.encode()), " ".join(map(str, vals))))
